@@ -305,6 +305,14 @@ def gen_edits(rng, param, case):
                 break
             except Exception:
                 continue
+        else:
+            # no new value: the edit is kept only if the value the object already holds stays valid
+            # (attribute edits do not re-validate; an object holding a value its own Parameter
+            # rejects is not a valid state)
+            try:
+                p._validate(dec_val(v0))
+            except Exception:
+                edits.pop()
     if not edits:
         return case
     return dict(case, edits=edits, final=final)
